@@ -112,7 +112,7 @@ def gen_box(rng, am):
     """(Box, family) with exactly representable vectors for most families."""
     np = _np()
     fam = rng.choice(['cubic', 'tetragonal', 'orthorhombic', 'hexagonal', 'monoclinic', 'triclinic', 'rhombohedral',
-                      'general'])
+                      'general', 'general', 'lefthanded'])
     a = rng.choice([2.0, 2.5, 3.0, 3.25, 4.0])
     b = rng.choice([2.75, 3.5, 4.5, 5.0])
     c = rng.choice([3.75, 5.25, 6.0, 6.5])
@@ -135,11 +135,11 @@ def gen_box(rng, am):
     elif fam == 'triclinic':
         box = am.Box(lx=a, ly=b, lz=c, xy=cm.dyadic(rng, -1, 1, 2), xz=cm.dyadic(rng, -1, 1, 2),
                      yz=cm.dyadic(rng, -1, 1, 2), origin=org)
-    else:  # general (not LAMMPS-normal) right-handed dyadic vectors
+    else:  # general (not LAMMPS-normal) dyadic vectors, right- or left-handed
         while True:
             v = [[cm.dyadic(rng, -4, 4, 1) for _ in range(3)] for _ in range(3)]
             d = np.linalg.det(np.array(v))
-            if d > 4.0:
+            if (d > 4.0 and fam == 'general') or (d < -4.0 and fam == 'lefthanded'):
                 break
         box = am.Box(vects=v, origin=org)
     return box, fam
@@ -562,8 +562,8 @@ def _corr_rotate(ctx, am, sysm, fam, U, d, kind, arg, form):
     mset = []
     for t, p, ex in matoms:
         s = vecmat([p[j] - o[j] for j in range(3)], Vi)
-        if d < 0:
-            # left-handed new cell: normalize reverses the third vector (c -> -c, origin += c): s_c -> 1 - s_c
+        if d * np.linalg.det(sysm.box.vects) < 0:
+            # left-handed new cell (U.vects): normalize reverses the third vector (c -> -c, origin += c): s_c -> 1 - s_c
             s = [s[0], s[1], 1 - s[2]]
         mset.append((t, tuple(ex), tuple(s)))
     spos = new.atoms_prop('pos', scale=True)
@@ -690,10 +690,10 @@ def _check_same_crystal(ctx, key, what, sysm, spos, new, T, count, replay):
 
 def _check_new_vectors(ctx, key, what, sysm, U, new, T, replay):
     """the result is expressed along the requested lattice vectors: its cell vectors are the rows of U.vects, turned
-    by the returned rotation (third one reversed when the requested set is left-handed; C05: normalize flips c)."""
+    by the returned rotation (third one reversed when the requested set U.vects is left-handed; C05: normalize flips c)."""
     np = _np()
     want = (np.array(U, dtype=float) @ sysm.box.vects) @ T.T
-    if np.linalg.det(np.array(U, dtype=float)) < 0:
+    if np.linalg.det(np.array(U, dtype=float) @ sysm.box.vects) < 0:
         want[2] = -want[2]
     scale = np.abs(want).max()
     if not np.allclose(new.box.vects, want, rtol=0, atol=1e-8 * scale):
@@ -703,17 +703,20 @@ def _check_new_vectors(ctx, key, what, sysm, U, new, T, replay):
     return True
 
 
-def _oracle_rotate(ctx, am, sysm, fam, spos, U, d, arg, form, accepted, key):
+def _oracle_rotate(ctx, am, sysm, fam, spos, U, d, arg, form, accepted, key, tol=None):
     """all clauses for one rotate call; `U` are the integers `arg` stands for."""
     np = _np()
     I3 = np.eye(3)
     uv = np.asarray(arg, dtype=float).tolist()
     replay = {'op': 'rotate', 'family': fam, 'vects': sysm.box.vects.tolist(), 'origin': sysm.box.origin.tolist(),
               'spos': [[float(x) for x in sp] for sp in spos], 'atype': sysm.atoms.atype.tolist(), 'U': U, 'uvws': uv,
-              'form': form, 'accepted': accepted}
-    what = f'rotate uvws={uv} ({form}; integers {U}, det {d}; {fam})'
+              'form': form, 'accepted': accepted, 'tol': tol}
+    what = f'rotate uvws={uv} ({form}; integers {U}, det {d}; {fam})' + (f' tol={tol}' if tol is not None else '')
     try:
-        new, T = sysm.rotate(arg, return_transform=True)
+        if tol is None:
+            new, T = sysm.rotate(arg, return_transform=True)
+        else:
+            new, T = sysm.rotate(arg, tol=tol, return_transform=True)
     except Exception as e:  # noqa
         if not accepted and isinstance(e, ValueError):
             return
@@ -777,8 +780,10 @@ def search(ctx, broken):
     for it in range(ctx.n(400, 2000) * scale):
         sysm, fam, spos, U, d = gen_case_U(rng, am, it, ctx.n(5, 8))
         arg, form, accepted = gen_uvws_form(rng, U) if it >= len(FIXED_U) else (U, 'int-list', True)
-        ctx.stats.case('oracle:rotate', (fam, repr(np.asarray(arg).tolist()), tuple(spos)))
-        _oracle_rotate(ctx, am, sysm, fam, spos, U, d, arg, form, accepted, 'rotate')
+        # the documented `tol` option (float or list): any ladder must give the same crystal
+        tol = rng.choice([None] * 8 + [1e-5, 1e-8, [1e-6, 1e-8], (1e-4,), [1e-3, 1e-5]])
+        ctx.stats.case('oracle:rotate', (fam, repr(np.asarray(arg).tolist()), tuple(spos), repr(tol)))
+        _oracle_rotate(ctx, am, sysm, fam, spos, U, d, arg, form, accepted, 'rotate', tol=tol)
     # hexagonal cells with 4-index vectors
     for it in range(ctx.n(60, 300) * scale):
         sysm, fam, spos, U, d, arg, form = gen_hex_case(rng, am)
@@ -873,7 +878,7 @@ def gen_conv_case(rng, am, setting, mode='random'):
     stored = []
     for sx in exact:
         t = list(sx)
-        if mode != 'plain':
+        if mode not in ('plain', 'offset'):
             if mode != 'far' and rng.random() < 0.25:
                 # one cell vector outside (the periodic lookup of the code, System.dmag, is a minimum-image search
                 # over the neighbouring cells: atoms further out are outside its - and C01's - domain)
@@ -884,7 +889,16 @@ def gen_conv_case(rng, am, setting, mode='random'):
                         t[k] = Fraction(1)
         stored.append(tuple(t))
     box, fam = gen_conv_box(rng, am, setting, plain=(mode == 'plain'))
+    shift = [Fraction(0)] * 3
+    if mode == 'offset':
+        # the whole crystal displaced rigidly: no atom on the lattice points, one (or several) a little off them
+        # (documented use with check_basis=False); not closer than 1e-5 of a cell: the code declares an atom within
+        # 1e-8 length units of a lattice point to be on it
+        shift = [rng.choice([-1, 1]) * rng.choice([Fraction(1, 10 ** 5), Fraction(1, 10 ** 3), Fraction(3, 10 ** 3),
+                                                   Fraction(1, 10 ** 2)]) for _ in range(3)]
+        stored = [tuple(t[k] + shift[k] for k in range(3)) for t in stored]
     return {'setting': setting, 'family': fam, 'mode': mode, 'vects': box.vects.tolist(), 'origin': box.origin.tolist(),
+            'shift': [[x.numerator, x.denominator] for x in shift],
             'stored': [[float(x) for x in t] for t in stored], 'atype': [mtype[j] for j in midx],
             'q': [mq[j] for j in midx], 'tag': [mtag[j] for j in midx]}
 
@@ -897,19 +911,21 @@ def build_conv(am, case):
 
 
 def conv_exact_spos(case):
-    """the exact relative coordinates (sixteenths + halves / thirds) the stored floats stand for."""
-    return [tuple(Fraction(x).limit_denominator(48) for x in t) for t in case['stored']]
+    """the exact relative coordinates (sixteenths + halves / thirds, + the rigid shift) the stored floats stand for."""
+    sh = [Fraction(a, b) for a, b in case.get('shift', [[0, 1]] * 3)]
+    return [tuple((Fraction(x) - sh[k]).limit_denominator(48) + sh[k] for k, x in enumerate(t)) for t in case['stored']]
 
 
 def _search_conversions(ctx, rng, am):
     """conventional -> primitive -> conventional: re-expressions that undo one another."""
     for setting in CONV_SITES:
         for variant in range(ctx.n(16, 80)):
-            case = gen_conv_case(rng, am, setting, mode=('plain', 'far')[variant] if variant < 2 else 'random')
+            mode = ('plain', 'far', 'offset')[variant] if variant < 3 else rng.choice(['random'] * 5 + ['offset'])
+            case = gen_conv_case(rng, am, setting, mode=mode)
             case['op'] = 'conversion'
             # 't': the code decides between t1 and t2 itself; check_basis=False skips the lattice-site test
-            case['call_setting'] = 't' if setting[0] == 't' and rng.random() < 0.35 else setting
-            case['check_basis'] = not (variant >= 2 and rng.random() < 0.2 and case['call_setting'] != 't')
+            case['call_setting'] = 't' if setting[0] == 't' and mode != 'offset' and rng.random() < 0.35 else setting
+            case['check_basis'] = not (mode == 'offset' or (variant >= 3 and rng.random() < 0.2 and case['call_setting'] != 't'))
             ctx.stats.case('oracle:conversion', (setting, repr(case['stored']), case['call_setting'], repr(case['vects'])),
                            sample={'op': 'c2p->p2c', 'setting': setting, 'family': case['family'],
                                    'natoms': len(case['atype']), 'storage': case['mode']})
@@ -1073,7 +1089,7 @@ def replay(ctx, payload):
         else:
             _oracle_rotate(ctx, am, sysm, r.get('family', '?'), spos, r['U'], _det3(r['U']),
                            np.array(r['uvws']) if 'uvws' in r else r['U'], r.get('form', 'int-list'),
-                           r.get('accepted', True), 'rotate')
+                           r.get('accepted', True), 'rotate', tol=r.get('tol'))
     elif r.get('op') == 'conversion' and 'stored' in r:
         _run_conversion(ctx, am, r)
     else:
